@@ -43,6 +43,13 @@ var Exprs = []Expr{
 	{Re: `x?`, Members: []string{"", "x"}, Non: []string{"xx"}},
 	{Re: `[a-z.]+`, Members: []string{"q", "a.b"}, Non: []string{"", "a-b"}},
 	{Re: `diff|patch`, Members: []string{"diff", "patch"}, Non: []string{"dif", "diffpatch"}},
+	{Re: `[A-Z][a-z]*`, Members: []string{"A", "Abc"}, Non: []string{"abc", ""}},
+	{Re: `\w{1,3}`, Members: []string{"a", "a_1"}, Non: []string{"", "abcd"}},
+	{Re: `(ab)*`, Members: []string{"", "ab", "abab"}, Non: []string{"a", "aba"}, Groups: true},
+	{Re: `[0-9]+(-[0-9]+)?`, Members: []string{"1", "10-20"}, Non: []string{"-", "1-"}, Groups: true},
+	{Re: `[a-z(]+`, Members: []string{"a(", "q"}, Non: []string{"", ")"}},
+	{Re: `[a-z()]+`, Members: []string{"f(x)", "ab"}, Non: []string{"", "1"}},
+	{Re: `([0-9]+)(px|em)`, Members: []string{"120px", "3em"}, Non: []string{"px", "12"}, Groups: true},
 }
 
 // ExprByRe finds a pool expression by text.
